@@ -34,7 +34,8 @@ def kani_unit(prop, unit, tier, seed, workdir):
     lock = os.path.join(vdrv.REPO, "Cargo.lock")
     if unit.get("use_repo_lock") and os.path.exists(lock):
         shutil.copy(lock, os.path.join(dst, "Cargo.lock"))
-    harnesses = unit["harnesses"]          # name -> {obligation, complete: bool, note}
+    # name -> {obligation, complete: bool, note, tier}; a harness marked tier "thorough" runs in that tier only
+    harnesses = {h: i for h, i in unit["harnesses"].items() if i.get("tier", "quick") == "quick" or tier == "thorough"}
     env = dict(os.environ, CARGO_NET_OFFLINE="true", CARGO_TARGET_DIR=os.path.join(vdrv.BUILD, "kani-target-" + unit["crate"]))
     cmdk = ["cargo", "kani"] + unit.get("kani_args", [])
     for h in harnesses:
